@@ -253,6 +253,7 @@ type piece struct {
 	comp, band int // between band and band+1 of component comp
 	xt, xb     float64
 	edge       int
+	top, bot   string // what the piece hangs on at its upper / lower end: a node ID, or a name unique to the bend
 }
 
 // drawingPieces splits every routed edge into one piece per band gap. ok=false when some polyline does not have exactly
@@ -272,31 +273,55 @@ func drawingPieces(v *View) (ps []piece, ok bool) {
 			return nil, false
 		}
 		ci := v.Comp[e.FromID]
+		upper, lower := e.FromID, e.ToID
+		if bt < bf {
+			upper, lower = lower, upper
+		}
 		for k := 0; k < span; k++ {
-			ps = append(ps, piece{ci, top + k, e.Points[k][0], e.Points[k+1][0], i})
+			pc := piece{comp: ci, band: top + k, xt: e.Points[k][0], xb: e.Points[k+1][0], edge: i,
+				top: fmt.Sprintf("\x00bend %d.%d", i, k), bot: fmt.Sprintf("\x00bend %d.%d", i, k+1)}
+			if k == 0 {
+				pc.top = upper
+			}
+			if k == span-1 {
+				pc.bot = lower
+			}
+			ps = append(ps, pc)
 		}
 	}
 	return ps, true
 }
 
 func countPieceCrossings(ps []piece) int {
+	x, _ := countPieceCrossingsTies(ps)
+	return x
+}
+
+// countPieceCrossingsTies also counts the UNDECIDABLE pairs: two pieces of one band gap that do not share an end node but
+// have the same x at the top or at the bottom (nodes of width 0 with NodeSpacing 0, or the NetworkSimplex positioner
+// rounding a centre distance below 0.5 to 0). The positioners keep the order of a layer (x is non-decreasing along it),
+// so a pair that crosses in the chosen order is drawn as a strict inversion or as a tie, and a pair that does not cross
+// is drawn in order or as a tie: strict <= reported <= strict + ties, whatever the ties hide.
+func countPieceCrossingsTies(ps []piece) (strict, ties int) {
 	groups := map[[2]int][]piece{}
 	for _, p := range ps {
 		k := [2]int{p.comp, p.band}
 		groups[k] = append(groups[k], p)
 	}
-	x := 0
 	for _, g := range groups {
 		for i := range g {
 			for j := i + 1; j < len(g); j++ {
 				a, b := g[i], g[j]
-				if (a.xt < b.xt && a.xb > b.xb) || (a.xt > b.xt && a.xb < b.xb) {
-					x++
+				switch {
+				case (a.xt < b.xt && a.xb > b.xb) || (a.xt > b.xt && a.xb < b.xb):
+					strict++
+				case (a.xt == b.xt && a.top != b.top) || (a.xb == b.xb && a.bot != b.bot):
+					ties++
 				}
 			}
 		}
 	}
-	return x
+	return strict, ties
 }
 
 // geometric proper intersection of two segments (shared endpoints, touching and collinear overlap are not crossings).
